@@ -75,7 +75,7 @@ func do(cl *sut.Client, k *kcase, rq sut.Req) *sut.Resp {
 	return cl.Do(rq)
 }
 
-var badEscapes = []string{"%<a", "%<b", "%<i", "%<p", "%</", "%<!", "%\"x", "%'x", "%&l", "%>x", "%<s", "%`x", "%<?", "%={"}
+var badEscapes = []string{"%<a", "%<b", "%<i", "%<p", "%</", "%<!", "%'x", "%>x", "%<s", "%`x", "%<?", "%={", "%a<", "%0<"}
 
 func prepBadEscape(r *rand.Rand, p, m string) string { return badEscapes[r.Intn(len(badEscapes))] }
 func twinBadEscape(string) string                   { return "%zq" }
@@ -87,10 +87,11 @@ func prepScheme(r *rand.Rand, p, m string) string {
 }
 func twinScheme(p string) string {
 	i := strings.Index(p, "://")
-	sch := neutral(p[:i])
-	if strings.ContainsAny(p[:i], "\t") {
-		sch = strings.Replace(p[:i], "\t", "\x01", -1) // keep it unparsable the same way
-	} else {
+	sch := p[:i]
+	switch {
+	case strings.ContainsAny(sch, "\t"):
+		sch = strings.Replace(sch, "\t", "\x01", -1) // stays unparsable for net/url the same way
+	case dangerousSchemes[strings.ToLower(sch)]:
 		sch = "https"
 	}
 	return sch + "://" + neutral(p[i+3:])
@@ -140,6 +141,8 @@ func prepFor(sub string) func(r *rand.Rand, p, m string) string {
 	switch sub {
 	case "ru.hostlabel":
 		return func(r *rand.Rand, p, m string) string { return urlHostSafe(p) }
+	case "ru.userinfo":
+		return func(r *rand.Rand, p, m string) string { return userinfoSafe(p) }
 	case "ru.scheme":
 		return prepScheme
 	case "sig-crlf":
@@ -206,7 +209,7 @@ func signInPosition(sub string) *position {
 
 func signOutPosition(sub string) *position {
 	return &position{
-		name: "auth.signout." + sub, group: groupFor(sub), stack: "auth", reflects: true,
+		name: "auth.signout." + sub, group: groupFor(sub), stack: "auth", reflects: sub != "extra",
 		variants: []string{"GET", "GET-rawquery", "POST-form-revokefail", "POST-query-revokefail"},
 		prep:     prepFor(sub), twin: twinFor(sub),
 		run: func(c *ctx, k *kcase, p string) (*sut.Resp, []string) {
@@ -386,7 +389,9 @@ func allPositions() []*position {
 		},
 	})
 	add(&position{
-		name: "auth.badescape", group: "bad-escape", stack: "auth", reflects: true, jsonable: true,
+		// sso-auth's logging handler calls ParseForm first and drops its error, so behind the production handler
+		// chain the later ParseForm calls return nil and the escape error never reaches a page (see dauth.badescape)
+		name: "auth.badescape", group: "bad-escape", stack: "auth", jsonable: true,
 		variants: []string{"sign_in", "callback", "sign_out-body"}, prep: prepBadEscape, twin: twinBadEscape,
 		run: func(c *ctx, k *kcase, p string) (*sut.Resp, []string) {
 			h := jsonHdr("auth", k.json)
@@ -455,6 +460,19 @@ func allPositions() []*position {
 			q := signedQuery(c, k, ruBase, "st4te", "", "", true)
 			return c.da.Client.Do(sut.Req{Host: c.da.Host, Target: c.da.Path("sign_in") + "?" + q, Headers: jsonHdr("auth", k.json),
 				Cookies: []string{c.da.CookieName + "=" + c.as.SealCookie(s)}}), nil
+		},
+	})
+	add(&position{
+		name: "dauth.badescape", group: "bad-escape", stack: "dauth", reflects: true, jsonable: true,
+		variants: []string{"sign_in", "callback", "sign_out-body"}, prep: prepBadEscape, twin: twinBadEscape,
+		run: func(c *ctx, k *kcase, p string) (*sut.Resp, []string) {
+			h := jsonHdr("auth", k.json)
+			switch k.variant {
+			case "sign_out-body":
+				h = append(h, [2]string{"Content-Type", formCT})
+				return c.da.Client.Do(sut.Req{Method: "POST", Host: c.da.Host, Target: c.da.Path("sign_out"), Headers: h, Body: []byte("redirect_uri=x&y=" + p)}), []string{p}
+			}
+			return c.da.Client.Do(sut.Req{Host: c.da.Host, Target: c.da.Path(k.variant) + "?client_id=" + pct(c.as.ClientID) + "&y=" + p, Headers: h, Raw: true}), []string{p}
 		},
 	})
 	add(&position{
